@@ -68,7 +68,21 @@ class StreamEventsEntry(FnSpec):
                                                                       Val.is_ref(C.fld("_send_streams", sig(j))))),
                        patterns=[z3.Select(items, j)])),
             ("alloc-monotone", C.alloc >= E.alloc),
-        ]
+        ] + self._stack_shape(L.eng, L.cur_st, C, items, L.it["i"], send)
+
+    def _stack_shape(self, eng, st, H, items, n, send):
+        """the local exit stack holds, bottom to top: the generator's aclose, both stream ends, one _subscribe bracket per processed signal"""
+        from .lib_anyio import xs_len, xs_item
+        fn = eng.fi.node
+        s = Val.a(st.env[roles.with_target(fn, "AsyncExitStack")].t)
+        recv = st.env[roles.unpack_targets(fn, "create_memory_object_stream")[1]].t
+        j = z3.Const("j!xs", I)
+        return [("exit-stack:aclose-then-both-stream-ends-then-one-subscription-bracket-per-signal",
+                 z3.And(xs_len(H, s) == 3 + n,
+                        Val.fst(xs_item(H, s, 0)) == con("xs:acb:opaque"),
+                        xs_item(H, s, 1) == entry("cm:stream-close", send), xs_item(H, s, 2) == entry("cm:stream-close", recv),
+                        z3.ForAll([j], z3.Implies(z3.And(0 <= j, j < n), xs_item(H, s, 3 + j) == entry("cm:" + SUBSCRIBE, z3.Select(items, j), send)),
+                                  patterns=[z3.Select(items, j)])))]
 
     def at_yield(self, eng, st, val):
         """the obligations at the yield = what `async with stream_events(...)` guarantees on entry"""
@@ -87,6 +101,8 @@ class StreamEventsEntry(FnSpec):
                    z3.ForAll([j], z3.Implies(z3.And(0 <= j, j < ln),
                                              tmem(z3.Select(st.heap["l_item"], lst(j)), st.l_len(lst(j)), send)),
                              patterns=[z3.Select(items, j)]), "yield")
+        for (nm, f) in self._stack_shape(eng, st, HeapView(st.heap), items, ln, send):
+            eng.oblige(st, "post", "entry:" + nm, f, "yield")
         news = [e for e in tr if e[0] == "new-generator"]
         eng.oblige(st, "post", "entry:yields-the-filtering-generator-over-the-new-receive-stream",
                    z3.BoolVal(len(news) == 1) if len(news) != 1 else val.t == vref(news[0][2]), "yield")
